@@ -2,6 +2,7 @@ package c17
 
 import (
 	"crypto/sha256"
+	"encoding/json"
 	"fmt"
 	"math/big"
 	"os"
@@ -32,7 +33,7 @@ func TestMain(m *testing.M) {
 		"foreign block transactions, one class with >200 pending) checked step by step against a Pending/Executed set model; part 2: block trees delivered to a fresh node in " +
 		"generated orders (reorgs), pool checked against the canonical chain after every delivery; part 3 (-race build): 4-8 goroutines running pre-generated scripts of " +
 		"add/pack/mark/unmark/lookup. non-trivial = history with an unmark followed by a re-pack of a returned transaction, or a pack that withheld a transaction for a nonce gap " +
-		"(part 1); history with a reorg that removed a block carrying transactions (part 2); mix with >=1 mark or unmark running while other goroutines add/pack (part 3); " +
+		"or a single mark whose executed records exceed the pool's 100 KB write chunk (part 1); history with a reorg that removed a block carrying transactions (part 2); mix with >=1 mark or unmark running while other goroutines add/pack (part 3); " +
 		"distinct by operation trace / (tree shape, delivery order) / script set")
 	stats.Assume("callers' locking is reproduced: MarkExecuted/UnMarkExecuted under the chain write lock, PackForCast under the read lock, AddTransaction and lookups without any lock")
 	stats.Assume("blocks handed to MarkExecuted carry one receipt per transaction and only transactions that have no executed record (blockchain_verify refuses other blocks)")
@@ -183,6 +184,9 @@ type machine struct {
 	nBlocks  int
 	trace    []string
 
+	hugeTx, fatBlock, wholeBigPack bool
+	maxFlushes                     int
+
 	unmarkRepack, nonceGap, limitHit, refusedPending, refusedExecuted, foreign, evictions, deepReorg bool
 }
 
@@ -191,8 +195,26 @@ func (m *machine) fail(format string, a ...interface{}) {
 	m.t.Fatalf("%s\ntrace: %s", fmt.Sprintf(format, a...), strings.Join(m.trace, " "))
 }
 
-func (m *machine) newTx(sender int, typ int32, nonce, reqId, gate uint64) *types.Transaction {
+// payload returns n bytes of call data (deterministic content).
+func payload(n int) string {
+	if n <= 0 {
+		return ""
+	}
+	return strings.Repeat("c17data.", n/8+1)[:n]
+}
+
+func (m *machine) newTx(sender int, typ int32, nonce, reqId, gate uint64, dataLen int) *types.Transaction {
 	tx := mkPoolTx(m.salt, len(m.univ), sender, typ, nonce, reqId, gate)
+	if dataLen > 0 {
+		// call data / extra data of realistic and of extreme size: the executed record of a
+		// transaction embeds the whole transaction
+		if typ == types.TransactionTypeETHTX {
+			tx.ExtraData = payload(dataLen)
+		} else {
+			tx.Data = payload(dataLen)
+		}
+		tx.Hash = tx.GenHash()
+	}
 	m.univ = append(m.univ, tx)
 	m.byHash[tx.Hash] = tx
 	return tx
@@ -215,7 +237,42 @@ func (m *machine) genTx() *types.Transaction {
 	if rapid.IntRange(0, 7).Draw(t, "gate") == 0 {
 		gate = uint64(rapid.IntRange(1, 1000).Draw(t, "gateNonce"))
 	}
-	return m.newTx(s, typ, uint64(n), req, gate)
+	return m.newTx(s, typ, uint64(n), req, gate, m.genDataLen())
+}
+
+// genDataLen: mostly no call data, some 1-4 KB, rarely a transaction whose record alone is larger
+// than the pool's 100 KB write chunk.
+func (m *machine) genDataLen() int {
+	switch k := rapid.IntRange(0, 199).Draw(m.t, "dataClass"); {
+	case k == 137: // (rapid favours the ends of a range: rare classes sit inside it)
+		m.hugeTx = true
+		return rapid.IntRange(100*1024, 140*1024).Draw(m.t, "hugeData")
+	case k >= 40 && k < 60:
+		return rapid.IntRange(1024, 4096).Draw(m.t, "kbData")
+	case k >= 60 && k < 74:
+		return rapid.IntRange(1, 300).Draw(m.t, "smallData")
+	}
+	return 0
+}
+
+// recordFlushes labels a block for the class histogram only (never used as an oracle): how many
+// times the executed records of one MarkExecuted call cross the pool's 100 KB chunk size, with
+// the records sized as the pool documents them (JSON of receipt + marshalled transaction).
+func recordFlushes(hdr *types.BlockHeader, receipts types.Receipts, txs []*types.Transaction) (flushes int, total int) {
+	size := 0
+	for i, r := range receipts {
+		raw, _ := types.MarshalTransaction(txs[i])
+		er := service.ExecutedReceipt{BlockHash: hdr.Hash}
+		er.Height, er.TxHash, er.Status = r.Height, r.TxHash, r.Status
+		b, _ := json.Marshal(&service.ExecutedTransaction{Receipt: er, Transaction: raw})
+		size += len(b)
+		total += len(b)
+		if size > 100*1024 {
+			flushes++
+			size = 0
+		}
+	}
+	return
 }
 
 func (m *machine) add(tx *types.Transaction, what string) {
@@ -318,7 +375,12 @@ func (m *machine) genState() map[string]uint64 {
 	return state
 }
 
-func (m *machine) mark() {
+func (m *machine) mark() { m.markMode("") }
+
+// markMode: "" = generated kind; "whole" = the whole last pack as one block, nothing evicted (what
+// the proposer's own full block looks like); "fat" = a foreign block of many transactions with
+// 1-4 KB of call data each.
+func (m *machine) markMode(mode string) {
 	t := m.t
 	var txs []*types.Transaction
 	var evicted []common.Hash
@@ -330,13 +392,39 @@ func (m *machine) mark() {
 		}
 	}
 	kind := "own"
-	if usable && rapid.IntRange(0, 3).Draw(t, "ownBlock") != 0 {
+	if mode == "" && rapid.IntRange(0, 19).Draw(t, "fatBlock") == 7 {
+		mode = "fat"
+	}
+	if mode == "whole" && !usable {
+		mode = ""
+	}
+	if mode == "fat" {
+		kind = "fat"
+		m.foreign, m.fatBlock = true, true
+		n := rapid.IntRange(20, 70).Draw(t, "fatTxs")
+		lo := rapid.SampledFrom([]int{1024, 2048, 3000}).Draw(t, "fatData")
+		seen := rapid.IntRange(0, 3).Draw(t, "fatSeenEvery") // some of them were gossiped to this node before
+		for i := 0; i < n; i++ {
+			s := i % 4
+			tx := m.newTx(s, txTypes[i%len(txTypes)], m.cur[s]+uint64(i/4), 0, 0, lo+(i*37)%1024)
+			if seen > 0 && i%(seen+1) == 0 {
+				m.add(tx, "add before fat block")
+			}
+			txs = append(txs, tx)
+		}
+	} else if usable && (mode == "whole" || rapid.IntRange(0, 3).Draw(t, "ownBlock") != 0) {
 		k := len(m.lastPack)
-		if rapid.Bool().Draw(t, "prefixOnly") {
+		evictSome := mode != "whole"
+		if mode != "whole" && rapid.Bool().Draw(t, "prefixOnly") {
 			k = rapid.IntRange(1, len(m.lastPack)).Draw(t, "prefix")
+		} else if mode != "whole" && k > 20 {
+			evictSome = rapid.Bool().Draw(t, "evictSome")
+		}
+		if k == len(m.lastPack) && k >= 150 {
+			m.wholeBigPack = true
 		}
 		for _, tx := range m.lastPack[:k] {
-			if rapid.IntRange(0, 6).Draw(t, "evict") == 0 {
+			if evictSome && rapid.IntRange(0, 6).Draw(t, "evict") == 0 {
 				evicted = append(evicted, tx.Hash)
 				m.evictions = true
 			} else {
@@ -364,12 +452,30 @@ func (m *machine) mark() {
 		hdr.EvictedTxs = []common.Hash{}
 	}
 	receipts := make(types.Receipts, 0, len(txs))
-	for _, tx := range txs {
-		r := types.NewReceipt(nil, rapid.IntRange(0, 4).Draw(t, "failed") == 0, 0, hdr.Height, "", tx.Source, "")
+	failEvery := 0
+	if len(txs) > 20 {
+		failEvery = rapid.IntRange(2, 9).Draw(t, "failEvery")
+	}
+	for i, tx := range txs {
+		failed := false
+		if failEvery > 0 {
+			failed = i%failEvery == 0
+		} else {
+			failed = rapid.IntRange(0, 4).Draw(t, "failed") == 0
+		}
+		r := types.NewReceipt(nil, failed, 0, hdr.Height, "", tx.Source, "")
 		r.TxHash = tx.Hash
 		receipts = append(receipts, r)
 	}
-	m.trace = append(m.trace, fmt.Sprintf("mark(%s,%dtx,%dev)", kind, len(txs), len(evicted)))
+	flushes, recBytes := recordFlushes(hdr, receipts, txs)
+	if flushes > m.maxFlushes {
+		m.maxFlushes = flushes
+	}
+	if flushes > 0 {
+		stats.Count("p1_marks_crossing_100KB", 1)
+		stats.Count("p1_chunk_flushes", int64(flushes))
+	}
+	m.trace = append(m.trace, fmt.Sprintf("mark(%s,%dtx,%dev,%dKB)", kind, len(txs), len(evicted), recBytes/1024))
 	if p := safely(func() { m.pool.MarkExecuted(hdr, receipts, txs, hdr.EvictedTxs) }); p != nil {
 		m.fail("MarkExecuted panicked: %v", p)
 	}
@@ -399,6 +505,18 @@ func (m *machine) mark() {
 	}
 	m.stack = append(m.stack, &pblock{hdr: hdr, txs: txs, evicted: evicted, state: st})
 	m.lastPack = nil
+	if flushes > 0 || len(txs) >= 150 {
+		// a block written in several chunks: every one of its transactions is executed now, is
+		// refused at the pool's door and is not handed out for the next block
+		for _, tx := range txs {
+			m.add(copyTx(tx), fmt.Sprintf("re-submission after mark of a %d KB block", recBytes/1024))
+		}
+		state := map[string]uint64{}
+		for i, s := range senders {
+			state[s] = m.cur[i]
+		}
+		m.pack(state, "pack after mark of a large block")
+	}
 }
 
 func (m *machine) unmark() {
@@ -537,6 +655,7 @@ func TestPoolStateMachine(t *testing.T) {
 			steps = rapid.IntRange(3, 10).Draw(t, "stepsBig")
 			nb := rapid.IntRange(190, 260).Draw(t, "bulk")
 			oneSender := rapid.Bool().Draw(t, "bulkOneSender")
+			bulkData := rapid.SampledFrom([]int{0, 0, 100, 400, 1500}).Draw(t, "bulkData")
 			var seq [4]uint64
 			for i := 0; i < nb; i++ {
 				s := i % 4
@@ -555,9 +674,18 @@ func TestPoolStateMachine(t *testing.T) {
 				default:
 					seq[s]++
 				}
-				m.add(m.newTx(s, types.TransactionTypeETHTX, n, req, 0), "bulk add")
+				m.add(m.newTx(s, types.TransactionTypeETHTX, n, req, 0, bulkData), "bulk add")
 			}
-			m.trace = append(m.trace, fmt.Sprintf("bulk(%d)", nb))
+			m.trace = append(m.trace, fmt.Sprintf("bulk(%d,%dB)", nb, bulkData))
+			if rapid.IntRange(0, 2).Draw(t, "fullBlockFirst") != 0 {
+				// the proposer's full block: pack against the current state, whole batch on chain
+				state := map[string]uint64{}
+				for i, s := range senders {
+					state[s] = m.cur[i]
+				}
+				m.pack(state, "pack of the bulk")
+				m.markMode("whole")
+			}
 		}
 		ops := []string{"add", "add", "add", "add", "addDup", "pack", "pack", "pack", "mark", "mark", "unmark", "unmark", "lookup"}
 		for i := 0; i < steps; i++ {
@@ -614,16 +742,20 @@ func TestPoolStateMachine(t *testing.T) {
 			m.lookup(tx.Hash, "final")
 		}
 		key := ""
-		if m.unmarkRepack || m.nonceGap {
+		if m.unmarkRepack || m.nonceGap || m.maxFlushes > 0 {
 			key = strings.Join(m.trace, " ")
 		}
 		cl := []string{"p1_case"}
 		for name, on := range map[string]bool{"p1_unmark_then_repack": m.unmarkRepack, "p1_nonce_gap_withheld": m.nonceGap, "p1_limit_200_hit": m.limitHit,
 			"p1_readd_pending_refused": m.refusedPending, "p1_readd_executed_refused": m.refusedExecuted, "p1_foreign_block": m.foreign,
-			"p1_evictions": m.evictions, "p1_reorg_depth2": m.deepReorg, "p1_big_pool": big} {
+			"p1_evictions": m.evictions, "p1_reorg_depth2": m.deepReorg, "p1_big_pool": big, "p1_tx_record_over_100KB": m.hugeTx,
+			"p1_fat_foreign_block": m.fatBlock, "p1_whole_pack_150plus_marked": m.wholeBigPack} {
 			if on {
 				cl = append(cl, name)
 			}
+		}
+		if m.maxFlushes > 0 {
+			cl = append(cl, fmt.Sprintf("p1_mark_crossing_100KB_batch_boundary_flushes_%d", imin(m.maxFlushes, 4)))
 		}
 		sort.Strings(cl)
 		stats.Case(key, cl...)
